@@ -365,7 +365,10 @@ def post_process_findings(banner: Optional[Banner], algs: Algorithms, client_aud
         while len(db[category][algorithm_name]) < 3:
             db[category][algorithm_name].append([])
 
-        db[category][algorithm_name][2].append("vulnerable to the Terrapin attack (CVE-2023-48795), allowing message prefix truncation")
+        # Once per algorithm, however often the peer lists the name (a list with many repetitions would otherwise grow the report quadratically).
+        terrapin_warning = "vulnerable to the Terrapin attack (CVE-2023-48795), allowing message prefix truncation"
+        if terrapin_warning not in db[category][algorithm_name][2]:
+            db[category][algorithm_name][2].append(terrapin_warning)
 
     def _get_chacha_ciphers_enabled(algs: Algorithms) -> List[str]:
         '''Returns a list of chacha20-poly1305 ciphers that the peer supports.'''
